@@ -94,6 +94,7 @@ enum cc_stat cc_dynamic_pool_new_conf(
     pool->exp_factor    = conf->exp_factor;
     pool->is_fixed      = conf->is_fixed;
     pool->is_packed     = conf->is_packed;
+    pool->alignment_boundary = conf->alignment_boundary;
     pool->top_page_size = size;    
     pool->page          = page;
     pool->high_ptr      = page + sizeof(PageInfo);
